@@ -122,6 +122,135 @@ def step(ctx, g, dims, terms, periodic=(), explicit=False, star=None):
     ctx.eq(tag + '/reported_integral', phi.domainIntegral(), Ix)
 
 
+def open_step(ctx, g, dims, terms, explicit=False, star=None, star_axes=None):
+    """open boundaries: the change of domainIntegral over one step equals the net flux through the
+    boundary faces.  Robin data (a, b, c symbolic) on every side, D and u fully symbolic including the
+    wall faces.  Implicit: identity in the unknown vector x (ghost unknowns included), so it holds for
+    whatever the linear solver returns:  sum_i V_i (M x - RHS)_i = alpha/dt (I(x) - I(old)) + sum_b F_b(x),
+    F_b = outward advective - diffusive flux through boundary face b computed by the oracle."""
+    nd = len(dims)
+    m, fs = scen.mesh(ctx, g, dims)
+    geo = scen.Geo(ctx, g, fs)
+    dt = ctx.real('dt', 'pos')
+    alpha = ctx.real('al', 'pos')
+    D = scen.facevar(ctx, m, 'D')
+    u = scen.facevar(ctx, m, 'u')
+    if star is not None:
+        star = tuple(star)
+        for ax in range(nd):
+            for F in (D, u):
+                comp = scen.fcomp(F, ax)
+                for fidx in itertools.product(*[range(k) for k in comp.shape]):
+                    lo, hi = ops.adj(ax, fidx)
+                    if (lo != star and hi != star) or (star_axes is not None and ax not in star_axes):
+                        comp[fidx] = 0.0
+    tag = 'C01/%s/%s/open/%s%s%s%s' % (g, 'x'.join(map(str, dims)), '+'.join(terms), '/explicit' if explicit else '',
+                                       ('/star' + ''.join(map(str, star))) if star is not None else '',
+                                       ('/ax' + ''.join(scen.AX[a] for a in star_axes)) if star_axes is not None else '')
+    G = scen.cell_index(dims)
+    V = m.cellvolume
+
+    def boundary_flux(full):
+        """net outward flux of (u phi - D grad phi) through the boundary faces for the field `full` (array incl. ghosts)"""
+        tot = ctx.const(0)
+        for ax, fidx in ops.faces(dims):
+            if fidx[ax] not in (0, dims[ax]):
+                continue
+            lo, hi = ops.adj(ax, fidx)
+            hi_side = fidx[ax] == dims[ax]
+            cin, cg = (lo, hi) if hi_side else (hi, lo)
+            pin, pg = full[cin], full[cg]
+            A = geo.area(ax, fidx)
+            i0 = tuple(k - 1 for k in cin)
+            if scen.GRIDS[g][2] == 'sph':
+                # the sums below cancel, so a relative tolerance cannot absorb the last bit of the library's literals
+                # (4.0/3.0*pi in cellvolume, the double 1/3 in the terms): mirror them; the area itself is compared with
+                # the exact 4 pi r^2 in the face-basis scenarios (relative 1e-12) and the volume in C10
+                r1, r2 = geo.fs[0][i0[0]], geo.fs[0][i0[0] + 1]
+                rf = geo.fs[0][fidx[0]]
+                A = V[i0] * rf * rf / ((1 / 3) * (r2 * r2 * r2 - r1 * r1 * r1))
+            dist = geo.d(ax, i0[ax]) * geo.metric(ax, i0)
+            sgn = 1.0 if hi_side else -1.0
+            Df = scen.fcomp(D, ax)[fidx]
+            uf = scen.fcomp(u, ax)[fidx]
+            if 'diffusion' in terms:
+                tot = tot - A * Df * (pg - pin) / dist
+            if 'central' in terms:
+                tot = tot + sgn * A * uf * (pg + pin) / 2
+            if 'upwind' in terms:
+                avg = (pg + pin) / 2
+                val = ctx.where(uf > 0, pin, avg) if hi_side else ctx.where(uf > 0, avg, pin)
+                tot = tot + sgn * A * uf * val
+        return tot
+
+    if explicit:
+        # both sides are linear in the old field (ghost values included, free: more general than ghosts derived from Robin data):
+        # the real chain and the real explicit solver are run once per unit field e_j, which keeps every query local
+        full = scen.full_shape(dims)
+        for cj in [None] + [cc for cc in scen.all_cells(dims) if scen.n_out(cc, dims) <= 1]:
+            vals = np.zeros(full) if not ctx.sym else np.array([ctx.const(0.0)] * int(np.prod(full)), dtype=object).reshape(full)
+            if cj is not None:
+                vals[cj] = 1.0 if not ctx.sym else ctx.const(1.0)
+            phi = pf.CellVariable(m, scen.symnp.symarray(vals) if ctx.sym else vals)
+            old_int = phi.domainIntegral()
+            rhs = None
+            for t in terms:
+                if t == 'diffusion':
+                    r = pf.divergenceTerm(D * pf.gradientTerm(phi))
+                elif t == 'central':
+                    r = -pf.divergenceTerm(u * pf.linearMean(phi))
+                elif t == 'upwind':
+                    r = -pf.divergenceTerm(u * pf.upwindMean(phi, u))
+                rhs = r if rhs is None else rhs + r
+            full_old = np.array(np.asarray(phi._value).view(np.ndarray))
+            new = pf.solveExplicitPDE(phi, dt, rhs)
+            ctx.eq('%s/integral_change/%s' % (tag, 'zero' if cj is None else 'e' + '_'.join(map(str, cj))),
+                   new.domainIntegral() - old_int, -dt * boundary_flux(full_old), timeout=60)
+        return
+    BC = pf.BoundaryConditions(m)
+    for sd in scen.sides_of(g):
+        scen.set_robin(ctx, BC, sd, prefix='r' + sd)
+    phi = pf.CellVariable(m, ctx.arr('o', tuple(dims)), BC)
+    sol = scen.Solver(ctx)
+    eq = [pf.transientTerm(phi, dt, alpha)]
+    for t in terms:
+        if t == 'diffusion':
+            eq.append(-pf.diffusionTerm(D))
+        elif t == 'central':
+            eq.append(pf.convectionTerm(u))
+        elif t == 'upwind':
+            eq.append(pf.convectionUpwindTerm(u))
+    old_vals = scen.flat(np.array(phi.value))
+    pf.solvePDE(phi, eq, externalsolver=sol)
+    rows = scen.mat_rows(sol.M)
+    x = sol.x
+    n = sol.M.shape[0]
+    cells = [(int(G[cc]), V[tuple(q - 1 for q in cc)]) for cc in scen.interior_cells(dims)]
+    # both sides are affine in the unknown vector: compare the constant parts and the coefficient of every unknown
+    # (unit vectors), which keeps every query local to the faces around one cell
+    Io = ctx.const(0)
+    crhs = ctx.const(0)
+    for k, (r, v) in enumerate(cells):
+        Io = Io + v * old_vals[k]
+        crhs = crhs + v * sol.RHS[r]
+    ctx.eq(tag + '/residual_sum/const', crhs, alpha / dt * Io, timeout=60)
+    for j in range(n):
+        e = [0.0] * n
+        e[j] = 1.0
+        lhs = ctx.const(0)
+        Ij = ctx.const(0)
+        for r, v in cells:
+            lhs = lhs + v * scen.matvec_row(rows, r, e, ctx)
+            if r == j:
+                Ij = Ij + v
+        ef = np.array(e, dtype=object if ctx.sym else float).reshape(scen.full_shape(dims))
+        ctx.eq('%s/residual_sum/col%d' % (tag, j), lhs, alpha / dt * Ij + boundary_flux(ef), timeout=60)
+    Ix = ctx.const(0)
+    for r, v in cells:
+        Ix = Ix + v * x[r]
+    ctx.eq(tag + '/reported_integral', phi.domainIntegral(), Ix)
+
+
 def _limiter(ctx, limiter):
     if limiter == 'UF':
         # an uninterpreted limiter: cancellation may not depend on what FL computes
@@ -228,5 +357,32 @@ def scenarios(tier):
                                       'params': {'g': g, 'dims': dims, 'terms': terms, 'periodic': list(per), 'explicit': explicit,
                                                  'star': star},
                                       'timeout': 60, 'validate': 1})
+    # open boundaries: change of the integral = net boundary flux
+    od = {1: [[1], [3]], 2: [[2, 3]], 3: [[2, 2, 2]]} if tier == 'quick' else {1: [[1], [2], [3], [4]], 2: [[2, 2], [2, 3], [3, 2], [1, 1]], 3: [[2, 2, 2], [1, 2, 3]]}
+    for g in scen.ALL:
+        nd = scen.ndim(g)
+        if g == 'SphericalGrid3D':
+            continue
+        for dims in od[nd]:
+            # explicit 3-D: coefficient fields symbolic on the faces of one corner cell at a time
+            stars3 = [[1] * nd, list(dims)] if tier == 'quick' else [[1] * nd, list(dims), [1] + list(dims[1:]), list(dims[:-1]) + [1]]
+            for terms in combos:
+                for explicit in (False, True):
+                    if explicit and tier == 'quick' and len(terms) > 1:
+                        continue
+                    # 3-D explicit / multi-term steps: coefficient fields symbolic on the faces of one corner cell at a time, and when the
+                    # upwind term (one case split per face) is involved, on the two faces of that cell along one axis at a time
+                    sts = [(None, None)]
+                    if nd == 3 and (explicit or len(terms) > 1):
+                        sts = [(st, None) for st in stars3]
+                        if 'upwind' in terms:
+                            sts = [(st, [a]) for st in stars3 for a in range(3)]
+                    for star, sax in sts:
+                        T.append({'name': 'open/%s/%s/%s%s%s%s' % (g, 'x'.join(map(str, dims)), '+'.join(terms), '/explicit' if explicit else '',
+                                                                    '/star' + ''.join(map(str, star)) if star else '',
+                                                                    '/ax%d' % sax[0] if sax else ''),
+                                  'fn': 'pv.props.c01:open_step',
+                                  'params': {'g': g, 'dims': dims, 'terms': terms, 'explicit': explicit, 'star': star, 'star_axes': sax},
+                                  'timeout': 60, 'validate': 1})
     T.sort(key=lambda t: -int(np.prod(t['params']['dims'])))
     return T
